@@ -171,7 +171,9 @@ def render(t) -> str:
         return f"{TUPLE_SPELLINGS[t[1]]}[{render(t[2])}, ...]"
     if k == "utuple":
         parts = [render(x) for x in t[2]]
-        parts.append(f"Unpack[{render(t[3])}]")
+        # builtin spelling: PEP 646 star syntax (typing turns it into Unpack[...] inside annotations; as the root shape of a
+        # codec it reaches the library unevaluated)
+        parts.append(f"*{render(t[3])}" if TUPLE_SPELLINGS[t[1]] == "tuple" else f"Unpack[{render(t[3])}]")
         parts += [render(x) for x in t[4]]
         return f"{TUPLE_SPELLINGS[t[1]]}[{', '.join(parts)}]"
     if k == "opt":
